@@ -37,7 +37,7 @@ impl Addr {
     { unimplemented!() }
     #[verifier::external_body]
     pub fn as_str(&self) -> (r: &str)
-        ensures r@ == self.0@
+        ensures r@ == self.0@, r.len() == str_byte_len(self.0@)
     { unimplemented!() }
     #[verifier::external_body]
     pub fn to_string(&self) -> (r: String)
